@@ -240,3 +240,109 @@ func (t *sendTr) marshalBytesArg(e ast.Expr) (string, bool) {
 	}
 	return t.extraParam(n, "Bytes"), true
 }
+
+// the initialiser of a package-level variable of package packet, nil when there is none
+func marshalRootInit(o types.Object) ast.Expr {
+	if rootPackage == nil || o == nil || o.Pkg() == nil || o.Pkg().Path() != "github.com/irai/packet" || o.Parent() != o.Pkg().Scope() {
+		return nil
+	}
+	for _, f := range rootPackage.Syntax {
+		for _, d := range f.Decls {
+			gd, ok := d.(*ast.GenDecl)
+			if !ok || gd.Tok != token.VAR {
+				continue
+			}
+			for _, sp := range gd.Specs {
+				vs := sp.(*ast.ValueSpec)
+				if len(vs.Names) == 1 && len(vs.Values) == 1 && rootPackage.TypesInfo.Defs[vs.Names[0]] == o {
+					return vs.Values[0]
+				}
+			}
+		}
+	}
+	return nil
+}
+
+// a package-level byte-slice / netip.Addr variable of package packet as a Lean byte list: a literal of constants
+// (rootByteVars) or netip.AddrFrom16 / AddrFrom4 of an array literal of constants
+func marshalRootBytes(o types.Object) (string, bool) {
+	if lit, ok := rootByteVars[o]; ok {
+		return lit, true
+	}
+	c, ok := marshalRootInit(o).(*ast.CallExpr)
+	if !ok || len(c.Args) != 1 || (exprStr(c.Fun) != "netip.AddrFrom16" && exprStr(c.Fun) != "netip.AddrFrom4") {
+		return "", false
+	}
+	cl, ok := c.Args[0].(*ast.CompositeLit)
+	if !ok {
+		return "", false
+	}
+	var bs []string
+	for _, el := range cl.Elts {
+		tv, ok := rootPackage.TypesInfo.Types[el]
+		if !ok || tv.Value == nil || tv.Value.Kind() != constant.Int {
+			return "", false
+		}
+		bs = append(bs, tv.Value.ExactString())
+	}
+	want := map[string]int{"netip.AddrFrom16": 16, "netip.AddrFrom4": 4}[exprStr(c.Fun)]
+	if len(bs) != want {
+		return "", false // a shorter literal leaves zero elements: not needed so far
+	}
+	return "([" + strings.Join(bs, ", ") + "] : Bytes)", true
+}
+
+// X (or packet.X) for a package-level struct variable of package packet initialised with T{F: V, …}, every V a
+// package-level variable with a literal value: the field values in the order of `fns` (a missing field is the zero value)
+func (t *sendTr) marshalRootStruct(e ast.Expr, fns, ftys []string) ([]string, bool) {
+	var id *ast.Ident
+	switch x := paren(e).(type) {
+	case *ast.Ident:
+		id = x
+	case *ast.SelectorExpr:
+		if pk, ok := x.X.(*ast.Ident); ok {
+			if _, isPkg := t.info.Uses[pk].(*types.PkgName); isPkg {
+				id = x.Sel
+			}
+		}
+	}
+	if id == nil {
+		return nil, false
+	}
+	cl, ok := marshalRootInit(t.info.Uses[id]).(*ast.CompositeLit)
+	if !ok {
+		return nil, false
+	}
+	vals := map[string]string{}
+	for _, el := range cl.Elts {
+		kv, ok := el.(*ast.KeyValueExpr)
+		if !ok {
+			return nil, false
+		}
+		vid, ok := kv.Value.(*ast.Ident)
+		if !ok {
+			return nil, false
+		}
+		lit, ok := marshalRootBytes(rootPackage.TypesInfo.Uses[vid])
+		if !ok {
+			return nil, false
+		}
+		vals[exprStr(kv.Key)] = lit
+	}
+	var out []string
+	for j, f := range fns {
+		switch {
+		case vals[f] != "":
+			if ftys[j] != "Bytes" {
+				return nil, false
+			}
+			out = append(out, vals[f])
+		case ftys[j] == "Bytes":
+			out = append(out, "([] : Bytes)")
+		default:
+			out = append(out, "0")
+		}
+	}
+	t.dict["package-level address variables of package packet = their initialisers"] = true
+	return out, true
+}
